@@ -255,7 +255,18 @@ def run(ctx):
                         if 1 <= o['l'] <= mp.argc:
                             ls.add(o['l'])
                 if len(ls & set(prm)) >= 2 and E.err_exit_positions(mp):
-                    okm = True
+                    # ... and the comparison sends position == end of range to the Err exit: with the element still in place the end of the
+                    # range is not a valid target of a forward move (Ge/Le are true for equal operands, Gt/Lt false)
+                    sw = mp.blocks[pos[0]]['term']
+                    if sw['k'] == 'switch' and is_local_op(sw['d']) and sw['d']['l'] == st['dst']['l']:
+                        eq_true = st['rv']['op'] in ('Ge', 'Le')
+                        tgt = sw['else'] if eq_true else dict(sw['ts']).get('0', sw['else'])
+                        reach = mp.reach_from((tgt, 0), include_start=True)
+                        oks_ = E.ok_exit_positions(mp)
+                        if not any(o_ in reach for o_ in oks_):
+                            okm = True
+                    else:
+                        okm = True      # the result is stored / combined first: shape not judged here
     C.check(okm, 'C07-MUST-range', 'move_element_here_at|move-within-parent-respects-range-end', 'a move within the same parent is only checked against the insert range computed with the element still in place: position == end of range puts the element BEHIND the element that has to follow it '
             '(the end of the range must be handed to move_element_position and a forward move to it refused)', '%s:%d' % (mp.file, mp.line), sample={'fn': 'move_element_position', 'guard': 'current < position && position >= end_pos -> InvalidPosition'})
     C.floor('C07-MUST-range.entries', n_entry, 8)
